@@ -278,9 +278,11 @@ def md_runs(q, t):
     return runs
 
 
-MD_RULE = ("case = one MultidimensionalPGMIndex<D,T,Eps,EpsRec> instantiation (12: D 2..4, uint32/uint64, eps 1..64, eps_rec 0/4) x "
-           "one point multiset (dense grids with duplicates, sparse uniform, coordinates at the encoder's maximum, clusters, "
-           "points on a line, tiny sets; n <= 5000) ")
+MD_RULE = ("case = one MultidimensionalPGMIndex<D,T,Eps,EpsRec> instantiation (15: D 2..4, uint32/uint64, eps 1..64 incl. non-powers of "
+           "two, eps_rec 0/2/4) x one point multiset (dense grids with duplicates, sparse uniform, coordinates at the encoder's "
+           "maximum, clusters, regularly spaced far-apart clusters, points on a line, tiny sets, two families of >= 2^15 points "
+           "built by the chunked builder; points handed over as tuples of T or of a narrower type; the queried object as "
+           "constructed or copied / moved / assigned) ")
 PLANS["C13"] = dict(
     runs=md_runs(800, 2500),
     kinds={"point_outside_box", "not_in_morton_order", "range_does_not_terminate", "range_result_mismatch"},
@@ -291,7 +293,7 @@ PLANS["C13"] = dict(
     assumptions=ASSUME_COMMON,
 )
 PLANS["C14"] = dict(
-    runs=md_runs(800, 2500),
+    runs=md_runs(2000, 5000),
     kinds={"contains_mismatch"},
     rule=MD_RULE + "x membership probes: every stored point (capped), its axis neighbours, the origin, the maximum point, points "
          "just above the largest stored code, random encodable points; oracle: multiset membership; non-trivial = absent points "
